@@ -7,7 +7,7 @@ import KyupyVerif.Model.SubstSem
 * op    = `copy` | `pickle` | `elim` (current tree, forks in index order) | `elimin<s><k>:<name>,<name>,...` (explicit
           dictionary order; s = 1: node order restored afterwards (patch 03), k = 1: undriven forks skipped (patch 06);
           `elimin00:` = the current tree) | `elimmap<k>:<name>,...` (index maps of the loop, k as before) | `wf` |
-          `wfsem` (`wf` and every fork has at most one input: hypotheses of `elim_sem`) | `snames`
+          `wfnt` (`wf` without the clause on trailing `None`s) | `wfsem` (`wf` and every fork has at most one input: hypotheses of `elim_sem`) | `snames`
 * names = node names, percent-encoded, `|`-separated (`%` alone = empty name; `~` = no node)
 * dump  = the canonical dump of `harness/circ.py: dump_net` (`nodes ; lines ; io`, blanks allowed)
 Answer: `<nodes> ; <lines> ; <io> ; <names>` in the same format, `raise` when the model's guard fails,
@@ -178,6 +178,7 @@ def handle (cmd : String) (args : List String) : Option String :=
       let order := if o == "" then [] else (o.splitOn ",").map unpct
       some (showMaps (elimForksInM skip order nn))
     else if op == "wf" then some (if nn.wf then "1" else "0")
+    else if op == "wfnt" then some (if nn.wfNoTrail then "1" else "0")
     else if op == "wfsem" then some (if nn.wf && nn.forkIns1 then "1" else "0")
     else if op == "snames" then some (",".intercalate (nn.sNames.map pct))
     else some "bad-args"
